@@ -420,7 +420,22 @@ def gen_opt(rng):
     return "opt," + "&".join(params) + "|" + ";".join(us)
 
 
+def addr_text(rng):
+    c = rng.random()
+    if c < 0.35:
+        return ipv4(rng)
+    if c < 0.85:
+        return ipv6_text(rng)
+    return rng.choice(["10", "10.1", "10.1.2", "0x7f000001", "0x7f", "1.2.3.4/24", "1.2.3.4/33", "1.2.3.4.5", "256.1.1.1", "01.02.03.04", "1..2",
+                       "::", "::1", "1::", "1::/0", "2001:db8::1/32", "2001:db8::1/129", "2001:db8::1/064", "::ffff:1.2.3.4", "::1.2.3.4", "1:2:3:4:5:6:1.2.3.4",
+                       "1:2:3:4:5:6:7:1.2.3.4", "::1.2.3", "12345::", ":1", "1:::2", "1:2:3:4:5:6:7:8:9", "1:2:3:4:5:6:7::", "::2:3:4:5:6:7:8", "g::1", "", "fe80::1%eth0",
+                       "1:2:3:4:5:6:7:8/0", "::ffff:0:0", "0:0:0:0:0:ffff:102:304", "::0.0.0.1", "::1.0.0.0"])
+
+
 def gen_fn(rng):
+    c = rng.random()
+    if c < 0.2:
+        return "fn,f=addr|X" + hx(addr_text(rng))
     c = rng.random()
     if c < 0.3:
         s = rng.choice([" ", "  ", "\t"]).join(option_token(rng) for _ in range(rng.randint(0, 6)))
@@ -498,7 +513,9 @@ def gen_c16(rng, tier, n):
             if not any(x.startswith("R") for x in us):
                 params.append("reinit=1")
             out.append("rc," + "&".join(params) + "|" + ";".join(us))
-        else:
+        elif c < 0.95:
             s = csv_servers(rng)
             out.append("fn,f=%s%s|X%s" % (rng.choice(["srv", "srvstrict"]), "&poke=1" if rng.random() < 0.7 else "", hx(s)))
+        else:
+            out.append("fn,f=addr|X" + hx(addr_text(rng)))
     return out
